@@ -163,8 +163,10 @@ class Unit:
         return "\n".join(self.out_lines) + "\n"
 
 
-def parse_unit(name):
+def parse_unit(name, vacuity=False):
     u = Unit(name)
+    u.vacuity = vacuity
+    u.vacuity_targets = []
     if not os.path.exists(u.path):
         raise Undecided("no such unit: " + name)
     raw = open(u.path).read().split("\n")
@@ -328,6 +330,25 @@ def emit_fn(u, file, nm, block):
                 cur["lines"].append(l)
             elif s:
                 raise Undecided("unit %s: stray text in //@fn %s: %r" % (u.name, nm, s))
+
+    # ---- vacuity twin: functions with a precondition get `ensures false` (must be rejected);
+    #      all other functions are not re-verified (external_body)
+    if getattr(u, "vacuity", False):
+        has_req = any(re.match(r"\s*requires\b", l) for l in spec_lines)
+        if has_req:
+            has_ens = any(re.match(r"\s*ensures\b", l) for l in spec_lines)
+            ins = len(spec_lines)
+            for k, l in enumerate(spec_lines):
+                if re.match(r"\s*decreases\b", l):
+                    ins = k
+                    break
+            extra = "        false, // #vacuity" if has_ens else "    ensures false, // #vacuity"
+            spec_lines = spec_lines[:ins] + [extra] + spec_lines[ins:]
+            u.vacuity_targets.append(nm)
+        else:
+            attrs = attrs + ["#[verifier::external_body]"]
+            closures = {}
+            proof_lines = []
 
     # ---- closure anchors
     real_closures = it["closures"]
@@ -684,3 +705,17 @@ if __name__ == "__main__":
     if c["status"] == "undecided":
         for d in c.get("raw", [])[:8]:
             print(d.get("rendered", "")[:1500])
+
+
+
+def unit_lemmas(unit):
+    """proof fns written in the unit text (not spliced code): name, props (from a `// props:` comment), signature"""
+    res = []
+    for ln, l in enumerate(unit.out_lines):
+        inf = unit.linemap.get(ln + 1, {})
+        if inf.get("kind") != "unit":
+            continue
+        m = re.match(r"\s*(?:pub\s+)?(?:broadcast\s+)?proof fn\s+([A-Za-z0-9_]+)", l)
+        if m:
+            res.append({"name": m.group(1), "props": unit_fn_props(unit, m.group(1)), "sig": l.strip()})
+    return res
